@@ -76,6 +76,13 @@ proof fn axiom_entry_is_fun<'a>()
             forall|j: &'a [u8]| #[trigger] parse_ct_signed_certificate_timestamp.ensures((j,), fun_of(parse_ct_signed_certificate_timestamp)(j)) {}
 '''},
         {"file": "-", "kind": "inline", "name": "sct-contract", "text": SPEC},
+        {"file": F_CT, "kind": "fn", "name": "parse_ct_extensions", "contract": """
+    ensures
+        (i@.len() < 2 || i@.len() < 2 + be16s(i@, 0)) ==> r is Err && r->Err_0 is Incomplete,
+        i@.len() >= 2 && i@.len() >= 2 + be16s(i@, 0) ==> r is Ok && r->Ok_0.1.0@ =~= i@.subrange(2, 2 + be16s(i@, 0)) && r->Ok_0.0@ =~= i@.subrange(2 + be16s(i@, 0), i@.len() as int),
+""", "splices": [{"at_start": True, "text": "    let ghost i0 = i@;\n    proof { reveal_with_fuel(be_val, 3); }"},
+                 {"after": r"let \(i, ext_len\) = be_u16\(i\)\?;", "text": "    proof { assert(i@ =~= i0.subrange(2, i0.len() as int)); assert(ext_len as int == be16s(i0, 0)); }"},
+                 {"after": r"let \(i, ext_data\) = take\(ext_len as usize\)\(i\)\?;", "text": "    proof { let l = ext_len as int; assert(ext_data@ =~= i0.subrange(2, 2 + l)); assert(i@ =~= i0.subrange(2 + l, i0.len() as int)); }"}]},
         {"file": F_CT, "kind": "fn", "name": "parse_ct_signed_certificate_timestamp", "contract": """
     ensures sct_entry_post(i, r),
 """, "splices": [{"at_start": True, "text": "    proof { reveal_with_fuel(be_val, 3); lemma_is_fun_parse_ct_signed_certificate_timestamp_content(); }"}]},
